@@ -1,10 +1,257 @@
-// Package c14: harness for property C14 (stub until built).
+// Package c14: replicated execution is deterministic.
+//
+// One generated history (bank sends as signed transactions through FinalizeBlock, token
+// conversions, pools / positions / swaps, gauge votes, delegations, DA publish / challenge /
+// proofs, governance proposals and votes, block boundaries with chosen times) is executed in
+// N >= 3 separate OS processes: the harness re-executes its own binary with VERIF_C14_CHILD set.
+// Go randomises map iteration order per process and per range statement, so any dependence of
+// state, results or events on map order, wall-clock time, unseeded randomness, goroutine
+// scheduling or pointer values shows up as a difference between the processes.
+//
+// Per block every process records three digests: the app hash, the transaction results (signed
+// transactions: ExecTxResult without events; direct message-server calls: error text, response
+// bytes, gas consumed), and the events (block events, transaction events, events of direct
+// calls). The parent emits one CBlock case per block with the N digests of each kind.
+//
+// In addition process 0 dumps, for the two multi-element tallies written by sunrise, what the
+// real code read and what it produced (CTally: Keeper.Tally; CDa: one item resolved by
+// TallyValidityProofs), so that the Gallina step functions the order-independence theorems are
+// about are compared with the real loops on every run.
 package c14
 
-import "fmt"
+import (
+	"encoding/json"
+	"fmt"
+	"os"
+	"os/exec"
+	"path/filepath"
+	"sort"
+	"strings"
+	"sync"
 
-// Run generates n cases from seed, runs them on the real application and writes
-// cases_*.v and stats.json into outDir.
+	"verifharness/emit"
+)
+
+const childEnv = "VERIF_C14_CHILD"
+
+type opInfo struct {
+	Kind string `json:"kind"`
+	Arg  string `json:"arg,omitempty"`
+	Err  string `json:"err,omitempty"`
+}
+
+type blockObs struct {
+	Height  int64    `json:"height"`
+	DtSec   int64    `json:"dt_s"`
+	AppHash string   `json:"app_hash"`
+	Results string   `json:"results"`
+	Events  string   `json:"events"`
+	Ops     []opInfo `json:"ops"`
+	Err     string   `json:"err,omitempty"`
+}
+
+type modelCase struct {
+	Term string         `json:"term"`
+	Info map[string]any `json:"info"`
+}
+
+type childOut struct {
+	Blocks   []blockObs     `json:"blocks"`
+	Models   []modelCase    `json:"models"`
+	Coverage map[string]int `json:"coverage"` // site -> number of executions on >= 2 elements
+	Hist     map[string]int `json:"hist"`
+	Notes    []string       `json:"notes"`
+}
+
+// Run is the harness entry point (parent), or one replica (child) when VERIF_C14_CHILD is set.
 func Run(seed int64, n int, outDir string) error {
-	return fmt.Errorf("c14: harness not built yet")
+	if p := os.Getenv(childEnv); p != "" {
+		out, err := runHistory(seed, n)
+		if err != nil {
+			return err
+		}
+		b, err := json.Marshal(out)
+		if err != nil {
+			return err
+		}
+		return os.WriteFile(p, b, 0o644)
+	}
+	return runParent(seed, n, outDir)
+}
+
+func digestZ(hexDigest string) string {
+	// first 15 hex digits = 60 bits, as a decimal Coq Z
+	if len(hexDigest) < 15 {
+		return "0"
+	}
+	var x uint64
+	fmt.Sscanf(hexDigest[:15], "%x", &x)
+	return fmt.Sprint(x)
+}
+
+func runParent(seed int64, n int, outDir string) error {
+	N := 3
+	if n > 150 {
+		N = 5
+	}
+	if s := os.Getenv("VERIF_C14_N"); s != "" {
+		fmt.Sscan(s, &N)
+	}
+	if N < 3 {
+		N = 3
+	}
+	exe, err := os.Executable()
+	if err != nil {
+		return err
+	}
+	outs := make([]childOut, N)
+	errs := make([]error, N)
+	var wg sync.WaitGroup
+	sem := make(chan struct{}, 3) // at most three replicas at a time
+	for i := 0; i < N; i++ {
+		wg.Add(1)
+		go func(i int) {
+			defer wg.Done()
+			sem <- struct{}{}
+			defer func() { <-sem }()
+			p := filepath.Join(outDir, fmt.Sprintf("replica_%d.json", i))
+			cmd := exec.Command(exe, os.Args[1:]...)
+			cmd.Env = append(os.Environ(), childEnv+"="+p)
+			b, err := cmd.CombinedOutput()
+			if err != nil {
+				errs[i] = fmt.Errorf("replica %d: %v: %s", i, err, tail(string(b), 1500))
+				return
+			}
+			raw, err := os.ReadFile(p)
+			if err != nil {
+				errs[i] = err
+				return
+			}
+			errs[i] = json.Unmarshal(raw, &outs[i])
+		}(i)
+	}
+	wg.Wait()
+	for _, e := range errs {
+		if e != nil {
+			return e
+		}
+	}
+	st := emit.NewStats("C14", seed, "a map-range site of consensus code counts when it was executed on >= 2 elements in >= 2 processes (distinct sites); a block counts as evaluated when all N processes produced its three digests")
+	cf := &emit.CasesFile{Import: "Sys.C14Check", Runner: "run", Type: "c14_case"}
+	st.Extra["processes"] = N
+	// blocks: compare position by position; a replica that stopped early shows as digest 0
+	maxBlocks := 0
+	for _, o := range outs {
+		if len(o.Blocks) > maxBlocks {
+			maxBlocks = len(o.Blocks)
+		}
+	}
+	for b := 0; b < maxBlocks; b++ {
+		var ah, rs, ev []string
+		var info map[string]any
+		for i, o := range outs {
+			if b >= len(o.Blocks) {
+				ah, rs, ev = append(ah, "0"), append(rs, "0"), append(ev, "0")
+				continue
+			}
+			blk := o.Blocks[b]
+			ah, rs, ev = append(ah, digestZ(blk.AppHash)), append(rs, digestZ(blk.Results)), append(ev, digestZ(blk.Events))
+			if i == 0 {
+				info = map[string]any{"kind": "block", "block_index": b, "height": blk.Height, "dt_s": blk.DtSec, "ops": blk.Ops, "err": blk.Err,
+					"replay": fmt.Sprintf("history of seed %d, n %d, up to and including this block; rerun the harness with the same seed", seed, n)}
+			}
+		}
+		if info == nil {
+			info = map[string]any{"kind": "block", "block_index": b}
+		}
+		per := []map[string]string{}
+		for i, o := range outs {
+			if b < len(o.Blocks) {
+				per = append(per, map[string]string{"replica": fmt.Sprint(i), "app_hash": o.Blocks[b].AppHash, "results": o.Blocks[b].Results, "events": o.Blocks[b].Events})
+			}
+		}
+		info["digests"] = per
+		h := int64(0)
+		if b < len(outs[0].Blocks) {
+			h = outs[0].Blocks[b].Height
+		}
+		cf.Add(fmt.Sprintf("CBlock %d %s %s %s", h, emit.List(ah), emit.List(rs), emit.List(ev)))
+		st.Info(info)
+		st.Evaluations++
+		st.Count("block")
+		if b < len(outs[0].Blocks) {
+			for _, op := range outs[0].Blocks[b].Ops {
+				k := "op:" + op.Kind
+				if op.Err != "" {
+					k += ":err"
+				}
+				st.Count(k)
+			}
+			if outs[0].Blocks[b].Err != "" {
+				st.Count("block:failed")
+			}
+		}
+	}
+	// model correspondence cases from replica 0; the other replicas must have dumped the same terms
+	for k, m := range outs[0].Models {
+		for i := 1; i < N; i++ {
+			if k >= len(outs[i].Models) || outs[i].Models[k].Term != m.Term {
+				st.Notes = append(st.Notes, fmt.Sprintf("model dump %d differs between replica 0 and %d", k, i))
+				st.Count("model-dump-differs")
+			}
+		}
+		cf.Add(m.Term)
+		m.Info["replay"] = fmt.Sprintf("history of seed %d, n %d", seed, n)
+		st.Info(m.Info)
+		st.Evaluations++
+		st.Count("model:" + fmt.Sprint(m.Info["kind"]))
+		st.Sample(m.Info)
+	}
+	// coverage: executions on >= 2 elements per site, must be reported by >= 2 processes
+	sites := map[string]bool{}
+	for _, o := range outs {
+		for s := range o.Coverage {
+			sites[s] = true
+		}
+	}
+	names := make([]string, 0, len(sites))
+	for s := range sites {
+		names = append(names, s)
+	}
+	sort.Strings(names)
+	cov := map[string]any{}
+	for _, s := range names {
+		procs, total := 0, 0
+		for _, o := range outs {
+			if o.Coverage[s] > 0 {
+				procs++
+				total += o.Coverage[s]
+			}
+		}
+		cov[s] = map[string]int{"processes": procs, "executions_on_2plus": total}
+		if procs >= 2 {
+			st.Nontriv(s)
+		}
+	}
+	st.Extra["site_coverage"] = cov
+	for k, v := range outs[0].Hist {
+		st.Hist["replica0:"+k] = v
+	}
+	st.Notes = append(st.Notes, outs[0].Notes...)
+	if len(outs[0].Blocks) > 0 {
+		st.Sample(map[string]any{"kind": "block", "height": outs[0].Blocks[len(outs[0].Blocks)-1].Height,
+			"app_hash": outs[0].Blocks[len(outs[0].Blocks)-1].AppHash, "processes": N})
+	}
+	if _, err := cf.Write(outDir, "cases", 400); err != nil {
+		return err
+	}
+	return st.Write(outDir)
+}
+
+func tail(s string, n int) string {
+	s = strings.TrimSpace(s)
+	if len(s) > n {
+		return s[len(s)-n:]
+	}
+	return s
 }
